@@ -113,6 +113,26 @@ NSTEER3 = """ - declarations: renaming private fields, methods, types and consta
    `errors.Wrap` ↔ `fmt.Errorf("…: %w", err)` where nothing inspects the error's type;
  - locals: shadowing removed, a value computed once instead of twice (no side effects in between), `var x T` ↔ `x := T{}`, named results ↔ plain results when no defer reads them."""
 
+BSTEER4 = """ - IDENTITY: which object a statement works on — the consumed message vs. a copy of it, the handler / subscriber / topic of THIS loop iteration vs. another one, the
+   configuration of this instance vs. a package-level default, the message's context vs. the router's or the caller's, the channel returned to the caller vs. an internal one;
+ - SHARING by reference: a slice, map or pointer that caller, callee and goroutines now share (a shallow copy, a buffer or slice re-used across iterations, a value captured by a
+   closure that outlives the iteration, a struct copied together with its mutex or channel);
+ - HOW OFTEN something happens per message or per call: a hook, log line, metric, publish, ack, retry or close that is meant to happen exactly once made to happen at most once,
+   at least once, once per batch instead of per message (or the reverse);
+ - CONDITIONS weakened or strengthened: an extra `&&` / `||`, a nil or emptiness check that silently skips work, `==` vs `errors.Is` vs a type assertion on a wrapped error, a
+   `switch` that loses a case or gains a `default`, a comparison of the wrong pair of values;
+ - the CONTRACT of the Publisher / Subscriber / Marshaler / middleware interfaces at its edges: a value returned together with an error, a nil channel or nil slice returned as
+   success, a batch published in part, an error swallowed into a log line, a panic converted into a plain return."""
+
+NSTEER4 = """ - EXTRACTION and INLINING across function boundaries: a block turned into a private method with two or more parameters, a closure turned into a named function that takes
+   what it captured as arguments, a private helper with one call site inlined, two adjacent helpers merged, a method value (`x.f`) ↔ a small closure calling it;
+ - LOOP and COLLECTION shapes: `for i := range n`, index ↔ value iteration, collecting into a slice and iterating it afterwards ↔ acting inside the first loop (same order,
+   no side effects in between), `continue` ↔ nested `if`, a `switch true` ↔ if-chain, pre-declaring a variable outside the loop when each iteration assigns it first;
+ - ERROR PLUMBING that keeps nil-ness and text: `if err := f(); err != nil` ↔ two statements, a sentinel `var` for a repeated `errors.New` that nothing compares,
+   returning `err` directly ↔ through a named result that no defer touches, `errors.Wrap(err, …)` ↔ `errors.WithMessage(err, …)` where nothing looks at the stack;
+ - SELECT and CHANNEL spelling: the order of the cases of a `select` (no `default` involved), `case <-ch:` ↔ `case _, ok := <-ch:` with `ok` unused… or handled exactly as the
+   zero value was, `for { select { … } }` with a labelled break ↔ a helper function that returns."""
+
 
 def main():
     ap = argparse.ArgumentParser()
@@ -145,7 +165,7 @@ def main():
         os.makedirs(out, exist_ok=True)
         if not os.path.exists(wt):
             subprocess.check_call(["git", "-C", "/repo", "worktree", "add", "--detach", "-q", wt, "HEAD"])
-        txt = HEAD.format(wt=wt, out=out, root=a.root, nb=a.breaking, nn=a.neutral, bsteer={2: BSTEER2, 3: BSTEER3}.get(a.steer, BSTEER), nsteer={2: NSTEER2, 3: NSTEER3}.get(a.steer, NSTEER))
+        txt = HEAD.format(wt=wt, out=out, root=a.root, nb=a.breaking, nn=a.neutral, bsteer={2: BSTEER2, 3: BSTEER3, 4: BSTEER4}.get(a.steer, BSTEER), nsteer={2: NSTEER2, 3: NSTEER3, 4: NSTEER4}.get(a.steer, NSTEER))
         for i in ids:
             p = props[i]
             txt += f"\n### Property {i} — {p['title']}\n\nStatement: {p['statement']}\n\nQuantified over: {p['quantifier']['text']}\n\n"
